@@ -33,7 +33,9 @@ RULE += (' ' +
          'payload-moving method of a socket / file object is absent on the '
          'wrappers or goes through the cipher. Round 14: component '
          'secret_bits - 256 draws of the secret generator, every bit '
-         'position takes both values. ')
+         'position takes both values. Round 15: every other encrypted '
+         'login has a late outgoing listener raising IgnorePacket for '
+         'every packet. ')
 LEVEL_TEXT = ('Differential testing of the cipher wrappers and the RSA '
               'envelope against independent implementations over generated '
               'secrets, streams, call partitions and interleavings.')
